@@ -4,6 +4,7 @@ import UtilModel.RefCount.ObsNoPanic
 import UtilModel.RefCount.Proofs7
 import UtilModel.RefCount.ObsProg
 import UtilModel.RefCount.ConsLift
+import UtilModel.RefCount.Transfer
 open UtilModel UtilModel.RefCount
 #print axioms UtilModel.accepts_sound
 #print axioms UtilModel.accepted_satisfies
@@ -23,3 +24,9 @@ open UtilModel UtilModel.RefCount
 #print axioms RefCount.progress_obs
 #print axioms RefCount.c09_obs
 #print axioms RefCount.Cons.c09c_obs
+#print axioms UtilModel.C09_accepted_refcount
+#print axioms UtilModel.C09c_accepted_refcount_consumers
+#print axioms UtilModel.complete_refcount
+#print axioms UtilModel.reject_sound_refcount
+#print axioms UtilModel.complete_refcount_consumers
+#print axioms UtilModel.reject_sound_refcount_consumers
